@@ -434,7 +434,7 @@ func (x *Exec) getPath(v Value, p []PE) Value {
 	for _, e := range p {
 		if e.Index != nil {
 			a := v.(*Term)
-			v = x.b.Select(a, x.adaptIdx(a, e.Index))
+			v = x.sel(a, x.adaptIdx(a, e.Index))
 		} else {
 			v = v.(*StructV).F[e.Field]
 		}
